@@ -47,7 +47,7 @@ P("C13", "mirfacts+srcfacts+rules",
   "trusts that iterator adaptor types nest their source type; the diagnostics module only prints (re-checked each run)", b=True)
 
 P("C14", "mirfacts+rules",
-  "static analysis: UNORD over the digest functions and discovery path, serde-carrier type inspection, cache-hit control-region vs filesystem-mutator closure (CALLS/ORDER), force-guard dominance (CTRL)",
+  "static analysis: UNORD over the digest functions and discovery path, serde-carrier type inspection, cache-hit control-region vs filesystem-mutator closure before and after the check (CALLS/ORDER), force-guard dominance (CTRL), comparability of the saved and the compared record (constructor and argument provenance), demanded-file names vs written names (TABLE)",
   "Decides that the three cache digests are built from order-free inputs with a fixed-key hasher, that every block which runs only when "
   "needs_regeneration answered false (and the callers' continuation after such a return) reaches no filesystem mutator, that the cache is "
   "consulted only under should_force()==false, that force reaches generation without it, and that the CLI flag is applied after the "
@@ -55,7 +55,7 @@ P("C14", "mirfacts+rules",
   "64-bit digest collisions ignored; mtime behaviour of the file system not modelled")
 
 P("C08", "mirfacts+srcfacts+rules",
-  "static analysis: field-level information flow (FLOW) — (ADT, field) read sets of everything a cache hit skips ⊆ read set of the digest computation; digest plumbing, existence-check governance, failure handling (ORDER/CTRL) over MIR",
+  "static analysis: field-level information flow (FLOW) — (ADT, field) read sets of everything a cache hit skips ⊆ read set of the digest computation; digest plumbing (value slice of combined_hash, digest functions as pure serialisers, negation parity of conditional inputs), existence-check governance and its file-name table, failure handling (ORDER/CTRL) over MIR",
   "Decides the premise of the cache's soundness argument: every model/config field read by code reachable from generate_models or from "
   "the post-check part of the two cache-consulting functions is an input of the digest (directly, through a derived Serialize, or as the "
   "source string of a derived TypeStructure), modulo named exemptions that are re-established on every run (copy-only into a context "
@@ -83,7 +83,7 @@ P("C20", "mirfacts+rules",
   "the lemma-level argument is stated, not mechanised")
 
 P("C15", "mirfacts+srcfacts+rules",
-  "static analysis: exhaustive enumeration of panic-capable MIR sites (PANIC) with symbolic linear-form index provenance (G3), dominating length/prefix/suffix guards (G1/G2), constructor facts (G4), bounded offset arithmetic (G5), a reviewed exemption table, and error-flow isolation of syn::parse_file",
+  "static analysis: exhaustive enumeration of panic-capable MIR sites (PANIC) with symbolic linear-form index provenance (G3), dominating length/prefix/suffix guards (G1/G2), constructor facts (G4), bounded offset arithmetic (G5), a reviewed exemption table, error-flow isolation of syn::parse_file, and a progress argument for every natural loop (iterator/queue-driven, counting, structural descent, or reviewed)",
   "For every body reachable from the entry points, each assert terminator, unwrap/expect, Index impl, partial String/Vec method, RefCell "
   "borrow and external partial function (serde_rename_rule) is enumerated and must be discharged by a guard rule or one of the named, "
   "side-condition-checked exemptions; string slice bounds are evaluated symbolically as offsets of find/rfind/char_indices results plus the "
